@@ -335,15 +335,15 @@ theorem buildTree_spec {base L h} (m : Nat) (t : Tracks base L [] h) :
     · intro e; apply hbd; rw [← e]; exact List.mem_cons_self ..
 
 /-- `operator=` never leaks and never frees a dead block, whatever the receiver held. -/
-theorem cotreeAssign_clean {base L h} (m : Nat) (x : List Bool) (t : Tracks base L [] h) :
-    Clean L (cotreeAssign (buildTree m h).1 x (buildTree m h).2) := by
+theorem cotreeAssignAsWritten_clean {base L h} (m : Nat) (x : List Bool) (t : Tracks base L [] h) :
+    Clean L (cotreeAssignAsWritten (buildTree m h).1 x (buildTree m h).2) := by
   -- first: after destroy() of the receiver nothing is owned
   have t0 : Tracks base L [] (cotDestroy (buildTree m h).1 (buildTree m h).2) := by
     rcases buildTree_spec m t with ⟨_, e⟩ | ⟨_, bi, bd, es, e1, t1, nd, hes, hne⟩
     · rw [e]; simpa [cotDestroy, Tree.empty] using t
     · rw [e1]
       exact cotDestroy_full t1 nd hes (by simp) (by simp) hne (reservedOf_ne_zero _)
-  unfold cotreeAssign
+  unfold cotreeAssignAsWritten
   simp only
   generalize cotDestroy (buildTree m h).1 (buildTree m h).2 = h0 at t0
   generalize (buildTree m h).1.cached = prev
@@ -378,9 +378,9 @@ theorem cotreeAssign_clean {base L h} (m : Nat) (x : List Bool) (t : Tracks base
           exact Clean.of (cotDestroy_full (r := reservedOf x.length) t2 nd hes hbi hbd hne (reservedOf_ne_zero _)) _ _
 
 /-- The iterator constructor with the handler added does not leak. -/
-theorem cotreeIterGuarded_clean {base L h} (n : Nat) (t : Tracks base L [] h) :
-    Clean L (cotreeIterGuarded n h) := by
-  unfold cotreeIterGuarded
+theorem cotreeIter_clean {base L h} (n : Nat) (t : Tracks base L [] h) :
+    Clean L (cotreeIter n h) := by
+  unfold cotreeIter
   split
   · exact Clean.of t _ _
   · rename_i hn
@@ -417,9 +417,9 @@ theorem cotreeIterGuarded_clean {base L h} (n : Nat) (t : Tracks base L [] h) :
           exact Clean.of this _ _
 
 /-- The iterator constructor as written is clean whenever the fill loop does not throw. -/
-theorem cotreeIter_clean_of_not_thrown {base L h} (n : Nat) (t : Tracks base L [] h)
-    (hnt : (cotreeIter n h).thrown = false) : Clean L (cotreeIter n h) := by
-  unfold cotreeIter at hnt ⊢
+theorem cotreeIterAsWritten_clean_of_not_thrown {base L h} (n : Nat) (t : Tracks base L [] h)
+    (hnt : (cotreeIterAsWritten n h).thrown = false) : Clean L (cotreeIterAsWritten n h) := by
+  unfold cotreeIterAsWritten at hnt ⊢
   split
   · exact Clean.of t _ _
   · rename_i hn
@@ -453,9 +453,9 @@ theorem cotreeIter_clean_of_not_thrown {base L h} (n : Nat) (t : Tracks base L [
           exact ⟨this.2.1, this.1, this.2.2⟩
 
 /-- A fault in one of the two allocations of `init` is handled by `init` itself. -/
-theorem cotreeIter_clean_of_init_throws {base L h} (n : Nat) (t : Tracks base L [] h)
-    (hi : (cotInit none n h).1 = true) : Clean L (cotreeIter n h) := by
-  unfold cotreeIter
+theorem cotreeIterAsWritten_clean_of_init_throws {base L h} (n : Nat) (t : Tracks base L [] h)
+    (hi : (cotInit none n h).1 = true) : Clean L (cotreeIterAsWritten n h) := by
+  unfold cotreeIterAsWritten
   split
   · exact Clean.of t _ _
   · split
@@ -499,14 +499,79 @@ theorem Tree.ok_full (bi bd r : Nat) (es : List Nat) (hr : r ≠ 0) :
     (Tree.mk (some bi) (some bd) r es es.length (some bi)).ok = true := by simp [Tree.ok, hr]
 
 /-- `operator=` on a receiver that was the empty tree leaves a valid tree on every path. -/
-theorem cotreeAssign_valid_of_empty (x : List Bool) (h : Heap) :
-    (cotreeAssign Tree.empty x h).valid = true := by
-  unfold cotreeAssign
+theorem cotreeAssignAsWritten_valid_of_empty (x : List Bool) (h : Heap) :
+    (cotreeAssignAsWritten Tree.empty x h).valid = true := by
+  unfold cotreeAssignAsWritten
   have hd : cotDestroy Tree.empty h = h := by simp [cotDestroy, Tree.empty]
   simp only [hd]
   have hc : Tree.empty.cached = none := rfl
   rw [hc]
   rcases hci : cotInit none x.length h with ⟨thr, tr, h1⟩
+  rcases cotInit_cases hci with ⟨e1, e2⟩ | ⟨e1, hn, e2, e3⟩ | ⟨e1, bi, bd, e2⟩
+  · subst e1 e2; simp [Outcome.ofHeap, Tree.ok_empty]
+  · subst e1 e2 e3
+    have hx : x = [] := List.length_eq_zero_iff.mp hn
+    subst hx
+    simp [copyDataFrom, Outcome.ofHeap, Tree.ok_empty]
+  · subst e1 e2
+    simp only
+    rcases hcd : copyDataFrom _ x h1 with ⟨thr2, tr2, h2⟩
+    rcases copyDataFrom_cases hcd with e3 | ⟨es, e3⟩
+    · subst e3; cases thr2 <;> simp [Outcome.ofHeap, Tree.ok_empty]
+    · subst e3; cases thr2 <;> simp [Outcome.ofHeap, Tree.ok_full _ _ _ _ (reservedOf_ne_zero _)]
+
+end PPLV.Alloc
+
+namespace PPLV.Alloc
+
+/-- Repaired `operator=`: no leak, no bad free, for every receiver. -/
+theorem cotreeAssign_clean {base L h} (m : Nat) (x : List Bool) (t : Tracks base L [] h) :
+    Clean L (cotreeAssign (buildTree m h).1 x (buildTree m h).2) := by
+  have t0 : Tracks base L [] (cotDestroy (buildTree m h).1 (buildTree m h).2) := by
+    rcases buildTree_spec m t with ⟨_, e⟩ | ⟨_, bi, bd, es, e1, t1, nd, hes, hne⟩
+    · rw [e]; simpa [cotDestroy, Tree.empty] using t
+    · rw [e1]
+      exact cotDestroy_full t1 nd hes (by simp) (by simp) hne (reservedOf_ne_zero _)
+  unfold cotreeAssign
+  simp only
+  generalize cotDestroy (buildTree m h).1 (buildTree m h).2 = h0 at t0
+  split
+  · rename_i tr h1 hi
+    rcases cotInit_spec t0 hi with ⟨_, t1, htr⟩ | ⟨hf, _⟩ | ⟨hf, _⟩
+    · subst htr
+      have : cotDestroy { Tree.empty with cached := none } h1 = h1 := by simp [cotDestroy, Tree.empty]
+      rw [this]; exact Clean.of t1 _ _
+    · cases hf
+    · cases hf
+  · rename_i tr h1 hi
+    rcases cotInit_spec t0 hi with ⟨hf, _⟩ | ⟨_, hn, htr, hh⟩ | ⟨_, hn, bi, bd, htr, t1, hbi, hbd, hne⟩
+    · cases hf
+    · subst htr hh
+      have hx : x = [] := List.length_eq_zero_iff.mp hn
+      subst hx
+      simp [copyDataFrom, cotDestroy, Tree.empty, Outcome.ofHeap]
+      exact ⟨t0.done, t0.bad⟩
+    · subst htr
+      split
+      · rename_i tr2 h2 hc
+        rcases copyDataFrom_spec t1 hbi hbd hne hc with ⟨_, htr2, t2⟩ | ⟨hf, _⟩
+        · subst htr2
+          have : cotDestroy Tree.empty h2 = h2 := by simp [cotDestroy, Tree.empty]
+          rw [this]; exact Clean.of t2 _ _
+        · cases hf
+      · rename_i tr2 h2 hc
+        rcases copyDataFrom_spec t1 hbi hbd hne hc with ⟨hf, _⟩ | ⟨_, es, htr2, t2, nd, hes⟩
+        · cases hf
+        · subst htr2
+          exact Clean.of (cotDestroy_full (r := reservedOf x.length) t2 nd hes hbi hbd hne (reservedOf_ne_zero _)) _ _
+
+/-- Repaired `operator=`: the receiver is a valid tree on every path, whatever it held before. -/
+theorem cotreeAssign_valid (t0 : Tree) (x : List Bool) (h : Heap) :
+    (cotreeAssign t0 x h).valid = true := by
+  unfold cotreeAssign
+  simp only
+  generalize cotDestroy t0 h = h0
+  rcases hci : cotInit none x.length h0 with ⟨thr, tr, h1⟩
   rcases cotInit_cases hci with ⟨e1, e2⟩ | ⟨e1, hn, e2, e3⟩ | ⟨e1, bi, bd, e2⟩
   · subst e1 e2; simp [Outcome.ofHeap, Tree.ok_empty]
   · subst e1 e2 e3
